@@ -67,6 +67,14 @@ TAvar ==
                  num <= (x1 - x0) /\ 0 - num <= (x1 - x0)
           /\ \A j \in DOMAIN Ev.samples : Ev.samples[j].input <= x => Ev.samples[j].output <= y   \* monotone (maps are monotone)
 
+\* a store of a real font: every row the reader returns is the row the specification decodes from the raw bytes
+TIvsRead ==
+  /\ IsEvent("ivs_read")
+  /\ DataOK(Ev.data)
+  /\ Len(Ev.rows) = Ev.data.item_count
+  /\ \A r \in DOMAIN Ev.rows :
+        /\ Len(Ev.rows[r]) = Len(Ev.data.region_indexes)
+        /\ \A k \in DOMAIN Ev.rows[r] : Ev.rows[r][k] = Cell(Ev.data, r - 1, k)
 TInit == l = 1
-TraceSpec == TInit /\ [][TIvs \/ TNorm \/ TAvar]_l
+TraceSpec == TInit /\ [][TIvs \/ TNorm \/ TAvar \/ TIvsRead]_l
 =============================================================================
